@@ -205,6 +205,13 @@ Json genRouterSession(Rng &r, const RouterGenCfg &g) {
     Json options = Json::obj();
     for (auto &kv : g.options) options.set(fmt("%d", kv.first), kv.second);
     cfg.set("options", options);
+    {
+        std::string style = g.ortho ? "ortho" : "poly";
+        auto has = [&](int k) { auto it = g.params.find(k); return it != g.params.end() && it->second > 0; };
+        if (has(P_crossing) || has(P_fixedShared)) style += "+crossing-penalties";
+        if (!g.styleExtra.empty()) style += "+" + g.styleExtra;
+        cfg.set("style", style);
+    }
     cfg.set("SelectiveReroute", g.selective); cfg.set("InvisibilityGrph", g.invis); cfg.set("UseLeesAlgorithm", g.lees);
     s.set("cfg", cfg);
 
